@@ -1,5 +1,5 @@
 #!/usr/bin/env node
-// tools/db_export_a64.js <isa_aarch64.json> <out rows.json>
+// tools/db_export_a64.js  (usage below)
 //
 // C02: turns every row of the AArch64 ISA database (instructions[].data[]) into a machine-readable record for
 // spec/isa/A64Enc.tla:  literal bits (mask/value as two 16-bit limbs), named fields with their word segments
@@ -9,8 +9,13 @@
 // ok=false and a reason, and the check lists it as "not covered" (it is never judged).
 "use strict";
 const fs = require("fs");
-const src = process.argv[2] || "/repo/db/isa_aarch64.json";
-const dst = process.argv[3] || "/verif/out/C02/rows.json";
+// usage:  node tools/db_export_a64.js <outdir>                      -> <outdir>/rows.json from $VERIF_REPO (default /repo)/db/isa_aarch64.json
+//         node tools/db_export_a64.js <isa_aarch64.json> <rows.json>  (explicit paths)        [-v prints the reasons of rows without rules]
+const args = process.argv.slice(2).filter((a) => a !== "-v");
+const repo = process.env.VERIF_REPO || "/repo";
+let src = repo + "/db/isa_aarch64.json", dst = "/verif/out/C02/rows.json";
+if (args.length === 1) dst = /\.json$/.test(args[0]) ? args[0] : require("path").join(args[0], "rows.json");
+else if (args.length >= 2) { src = args[0]; dst = args[1]; }
 const db = JSON.parse(fs.readFileSync(src, "utf8"));
 
 class Skip extends Error {}
